@@ -18,7 +18,7 @@ import (
 	"github.com/flamego/flamego/verifharness/internal/rt"
 )
 
-const rule = "case = a registration program: a tree of Group(path, handlers, body) nested up to 3 deep (empty, static and dynamic group paths, 0..2 group handlers), containing Get..Trace, Route, Any, Routes (comma list with blanks and lower case / several method strings), Combo (common handlers + 1..4 methods) and AutoHead(on/off) toggles anywhere; handler lists are passed as fresh variadics or as sub-slices with spare capacity. Route paths are distinct by construction; a group with a static path of its own may also declare its own route with the empty path. " +
+const rule = "case = a registration program: a tree of Group(path, handlers, body) nested up to 3 deep (empty, static and dynamic group paths, 0..2 group handlers), containing Get..Trace, Route, Any, Routes (comma list with blanks and lower case / several method strings), Combo (common handlers + 1..4 methods) and AutoHead(on/off) toggles anywhere; handler lists are passed as fresh variadics or as sub-slices with spare capacity. Route paths are distinct by construction (except that a second Combo call may declare further methods of the same route); a group with a static path of its own may also declare its own route with the empty path. " +
 	"Oracle: an own flatten(program) = list of (method, full path, handler ids, outer group first). Flame P is built from the program, Flame Q from the flat list with Route(method, path, handlers); for every registered path x all nine methods the handler-id trace and the parameters of P must equal those of Q and flatten's expectation. Also: Combo with a repeated method must panic. " +
 	"non-trivial = a program with nesting depth >= 2, or a Combo with >= 2 methods, or an AutoHead toggle between two GET routes, or sibling routes inside a nested group with group handlers; distinct by case text"
 
@@ -528,7 +528,28 @@ func (g *gstate) nodes(t *rapid.T, depth int, own string) []Node {
 				pool = append(pool, "HEAD")
 			}
 			ms := pickDistinct(t, pool, rapid.IntRange(1, 4).Draw(t, "nm"))
-			out = append(out, Node{K: "combo", Path: routePath(), Methods: ms, Common: rapid.IntRange(0, 2).Draw(t, "common"), H: rapid.IntRange(0, 2).Draw(t, "h"), Spare: spare})
+			first := Node{K: "combo", Path: routePath(), Methods: ms, Common: rapid.IntRange(0, 2).Draw(t, "common"), H: rapid.IntRange(0, 2).Draw(t, "h"), Spare: spare}
+			out = append(out, first)
+			if rapid.IntRange(0, 3).Draw(t, "comboagain") == 0 {
+				// the same route declared by a second Combo call: other methods, its
+				// own common handlers
+				var rest []string
+				for _, m := range pool {
+					used := m == "HEAD" && g.autoHead
+					for _, x := range ms {
+						if x == m {
+							used = true
+						}
+					}
+					if !used {
+						rest = append(rest, m)
+					}
+				}
+				if len(rest) > 0 {
+					ms2 := pickDistinct(t, rest, rapid.IntRange(1, 2).Draw(t, "nm2"))
+					out = append(out, Node{K: "combo", Path: first.Path, Methods: ms2, Common: rapid.IntRange(0, 2).Draw(t, "common2"), H: rapid.IntRange(0, 2).Draw(t, "h2"), Spare: spare})
+				}
+			}
 		default:
 			g.autoHead = !g.autoHead
 			out = append(out, Node{K: "autohead", On: g.autoHead})
